@@ -81,6 +81,70 @@ macro_rules! check_value {
     }};
 }
 
+/// Long typed copies: arrays of 1..=257 wrappers (around every power of two an implementation
+/// might switch strategies at) at every misalignment 0..8, host buffer as long as, one shorter
+/// and one longer than the guest array, through the element-array and the slice copies in both
+/// directions: every element in wire format, nothing else touched.
+macro_rules! long_arrays {
+    ($ctx:expr, $W:ident, $N:ty, $tobytes:ident) => {{
+        use vm_memory::VolatileMemory;
+        let sz = size_of::<$N>();
+        for n in [1usize, 2, 3, 7, 8, 9, 15, 16, 17, 31, 32, 33, 40, 63, 64, 65, 100, 128, 129, 257] {
+            for mis in 0..8usize {
+                for delta in [0isize, -1, 1] {
+                    let m = (n as isize + delta).max(0) as usize; // host elements
+                    let moved = n.min(m);
+                    let mut store = vec![0u64; (n * sz + 64) / 8 + 2];
+                    let total = store.len() * 8;
+                    let base = store.as_mut_ptr() as *mut u8;
+                    // SAFETY: store outlives vs
+                    let vs = unsafe { VolatileSlice::new(base, total) };
+                    let val = |k: usize| -> $N { (0x0123_4567_89ab_cdefu64.rotate_left((k * 5 % 64) as u32) ^ (k as u64).wrapping_mul(0x0101_0101_0101_0101)) as $N };
+                    let host: Vec<$W> = (0..m).map(|k| <$W>::from(val(k))).collect();
+                    for route in 0..2usize {
+                        $ctx.case(true);
+                        vs.write_slice(&vec![0xa5u8; total], 0).unwrap();
+                        let off = 8 + mis;
+                        if route == 0 {
+                            vs.get_array_ref::<$W>(off, n).unwrap().copy_from(&host);
+                        } else {
+                            vs.subslice(off, n * sz).unwrap().copy_from(&host);
+                        }
+                        let mut got = vec![0u8; total];
+                        vs.read_slice(&mut got, 0).unwrap();
+                        let mut want = vec![0xa5u8; total];
+                        for k in 0..moved {
+                            want[off + k * sz..off + (k + 1) * sz].copy_from_slice(&val(k).$tobytes());
+                        }
+                        let mut bad: Option<String> = None;
+                        if got != want {
+                            let i = (0..total).find(|i| got[*i] != want[*i]).unwrap();
+                            bad = Some(format!("copy_from: container byte {} (element {}) is {:#04x}, expected {:#04x}", i, (i.saturating_sub(off)) / sz, got[i], want[i]));
+                        }
+                        // back into host elements
+                        let filler = <$W>::from(0x5a as $N);
+                        let mut back: Vec<$W> = vec![filler; m];
+                        let cnt = if route == 0 {
+                            vs.get_array_ref::<$W>(off, n).unwrap().copy_to(&mut back);
+                            moved
+                        } else {
+                            vs.subslice(off, n * sz).unwrap().copy_to(&mut back)
+                        };
+                        if bad.is_none() && (cnt != moved || (0..m).any(|k| back[k] != if k < moved { host[k] } else { filler })) {
+                            let k = (0..m).find(|k| back[*k] != if *k < moved { host[*k] } else { filler }).unwrap_or(0);
+                            bad = Some(format!("copy_to: returned {} (expected {}), host element {} is {:?}", cnt, moved, k, back.get(k).map(|w| w.to_native())));
+                        }
+                        if let Some(d) = bad {
+                            let key = format!("C20/{}/long-array-copy/{}", stringify!($W), if route == 0 { "VolatileArrayRef" } else { "VolatileSlice" });
+                            $ctx.fail(&key, &format!("{} guest elements at address {} mod 8, {} host elements: {}", n, (base as usize + off) % 8, m, d), json!({"type": stringify!($W), "guest_elements": n, "host_elements": m, "address_mod_8": (base as usize + off) % 8}));
+                        }
+                    }
+                }
+            }
+        }
+    }};
+}
+
 /// Placement sweep: one wrapper type stored and loaded at every offset 0..=24 of an 8-aligned
 /// container whose bytes are not zero, through the object, slice and typed-reference routes of a
 /// volatile slice and of mmap-backed guest memory; the whole container is compared afterwards.
@@ -325,7 +389,7 @@ fn structured64() -> impl Iterator<Item = u64> {
 
 pub fn run(tier: Tier, replay: Option<String>) -> i32 {
     let ctx = crate::new_ctx("C20", tier, "exploration", &replay);
-    ctx.set_rule("all 2^16 values for Le16/Be16; all 2^32 values for Le32/Be32 in the thorough tier (quick: every value whose bytes are drawn from {00,01,7f,80,fe,ff} plus rotations of 0x01234567 and single bits); for Le64/Be64/LeSize/BeSize every value whose 8 bytes are drawn from {00,01,7f,80,fe,ff} (6^8 = 1679616 values; every 36th in the quick tier) plus all rotations of 0x0123456789abcdef and all single-bit values. Per value: native->wrapper->native, in-memory bytes == to_le_bytes/to_be_bytes, == with the represented value both ways, != with v^1, the byte-swapped and a rotated value, and (every 97th value) the bytes found in a volatile slice after write_obj at an unaligned offset. Placement sweep: every wrapper x every offset 0..=24 of an 8-aligned container (so every address class mod 8) x 20 boundary values (thorough: + all rotations and single bits) x container pre-filled with 0xa5 / 0x00 x five routes (write_obj, write_slice of as_slice, typed reference store on a volatile slice; write_obj and write on mmap-backed guest memory): the whole container must equal the fill with exactly the wire bytes at the offset, and read_obj must return the value. Every wrapper also stored at every offset of guest memory made of three adjacent regions of 5, 2 and 9 bytes (objects spanning two and three regions). Records made of wrappers (a packed {Le16,Be32} of alignment 1 and a repr(C) {Le32,Be32,Be16,Le16}): typed slice copies in both directions for every slice offset 0..8 x slice length 0..=3 records+3 (so also lengths that are not a multiple of the record size) x 0..=4 host records, element arrays and object reads: whole records in wire format move, nothing else changes. Non-trivial = the value is not a byte palindrome (its two byte orders differ). Distinct by construction.");
+    ctx.set_rule("all 2^16 values for Le16/Be16; all 2^32 values for Le32/Be32 in the thorough tier (quick: every value whose bytes are drawn from {00,01,7f,80,fe,ff} plus rotations of 0x01234567 and single bits); for Le64/Be64/LeSize/BeSize every value whose 8 bytes are drawn from {00,01,7f,80,fe,ff} (6^8 = 1679616 values; every 36th in the quick tier) plus all rotations of 0x0123456789abcdef and all single-bit values. Per value: native->wrapper->native, in-memory bytes == to_le_bytes/to_be_bytes, == with the represented value both ways, != with v^1, the byte-swapped and a rotated value, and (every 97th value) the bytes found in a volatile slice after write_obj at an unaligned offset. Placement sweep: every wrapper x every offset 0..=24 of an 8-aligned container (so every address class mod 8) x 20 boundary values (thorough: + all rotations and single bits) x container pre-filled with 0xa5 / 0x00 x five routes (write_obj, write_slice of as_slice, typed reference store on a volatile slice; write_obj and write on mmap-backed guest memory): the whole container must equal the fill with exactly the wire bytes at the offset, and read_obj must return the value. Every wrapper also stored at every offset of guest memory made of three adjacent regions of 5, 2 and 9 bytes (objects spanning two and three regions). Long typed copies: arrays of 1..257 wrappers (around the powers of two) at every address mod 8 with a host buffer of the same length, one shorter and one longer, through the element-array and the slice copies in both directions. Records made of wrappers (a packed {Le16,Be32} of alignment 1 and a repr(C) {Le32,Be32,Be16,Le16}): typed slice copies in both directions for every slice offset 0..8 x slice length 0..=3 records+3 (so also lengths that are not a multiple of the record size) x 0..=4 host records, element arrays and object reads: whole records in wire format move, nothing else changes. Non-trivial = the value is not a byte palindrome (its two byte orders differ). Distinct by construction.");
     ctx.assume("64-bit and pointer-sized wrappers are covered by a bounded byte alphabet, not exhaustively");
     let mut fails = 0;
     for (n, s, a) in [
@@ -435,6 +499,14 @@ pub fn run(tier: Tier, replay: Option<String>) -> i32 {
         across_regions!(ctx, LeSize, usize, to_le_bytes, vals, &mem3);
         across_regions!(ctx, BeSize, usize, to_be_bytes, vals, &mem3);
     }
+    long_arrays!(ctx, Le16, u16, to_le_bytes);
+    long_arrays!(ctx, Be16, u16, to_be_bytes);
+    long_arrays!(ctx, Le32, u32, to_le_bytes);
+    long_arrays!(ctx, Be32, u32, to_be_bytes);
+    long_arrays!(ctx, Le64, u64, to_le_bytes);
+    long_arrays!(ctx, Be64, u64, to_be_bytes);
+    long_arrays!(ctx, LeSize, usize, to_le_bytes);
+    long_arrays!(ctx, BeSize, usize, to_be_bytes);
     records::<RecP>(&ctx);
     records::<RecA>(&ctx);
     ctx.sample(json!({"type": "Be32", "value": "0x0100007f", "bytes_expected": "01 00 00 7f", "checks": "round trip, as_slice, ==, != 0x7f000001 (byte-swapped), write_obj at offset 3 then raw bytes"}));
